@@ -196,7 +196,7 @@ def _is_log(e):
 def r08_3_builders(ctx):
     sites = 0
     for crate, mods in (("html5ever", ("tree_builder",)), ("xml5ever", ("tree_builder",)), ("html5ever", ("driver",)), ("xml5ever", ("driver",))):
-        for it in ctx.ast.crates[crate]:
+        for it in ctx.ast.walkable(crate):
             if it["k"] != "Fn" or it.get("body") is None or not any(m in it["mod"] for m in mods):
                 continue
             if it["name"] in ("default",):
